@@ -133,7 +133,13 @@ end
 inductive Parsed where | ok (r : Rx) | invalid | unsupported
   deriving Inhabited
 
+/-- deepest nesting of parentheses (escapes ignored: an over-estimate is harmless) -/
+def nestDepth (p : Str) : Nat :=
+  (p.foldl (fun (acc : Nat × Nat) c => if c == '(' then (acc.1 + 1, max acc.2 (acc.1 + 1)) else if c == ')' then (acc.1 - 1, acc.2) else acc) (0, 0)).2
+
+/-- the dialect: groups nested deeper than 100 are left to the engine (the `regex` crate has a nesting limit of its own, 250) -/
 def parse (p : Str) : Parsed :=
+  if nestDepth p > 100 then .unsupported else
   match parseAlt (4 * p.length + 8) p with
   | .ok r [] => .ok r
   | .ok _ (')' :: _) => .invalid
